@@ -57,6 +57,9 @@ pub fn programs(rng: &mut Rng, tool: &str, batcher: &str, uniq: &mut u64) -> Vec
     v.push(Prog { name: "sstore-cold-new".into(), to: tool.into(), data: asm::tool_call(asm::OP_SSTORE, &[asm::word_u64(0x9000 + u()), asm::word_u64(7)], &[]) });
     v.push(Prog { name: "sstore-warm-existing".into(), to: tool.into(), data: asm::tool_call(asm::OP_SSTORE, &[asm::word_u64(1), asm::word_u64(0x100 + u())], &[]) });
     v.push(Prog { name: "sstore-clear(refund)".into(), to: tool.into(), data: asm::tool_call(asm::OP_SSTORE, &[asm::word_u64(1), asm::word_u64(0)], &[]) });
+    // no call data at all: the intrinsic cost is exactly the 21 000 gas base cost
+    v.push(Prog { name: "empty-call-to-contract".into(), to: tool.into(), data: vec![] });
+    v.push(Prog { name: "empty-call-to-codeless-account".into(), to: "0x00000000000000000000000000000000000c0de5".into(), data: vec![] });
     v.push(Prog { name: "inc".into(), to: tool.into(), data: asm::tool_call(asm::OP_INC, &[asm::word_u64(2)], &[]) });
     v.push(Prog { name: "logs".into(), to: tool.into(), data: asm::tool_call(asm::OP_LOGS, &[asm::word_u64(rng.range(1, 6)), asm::word_u64(0xa1), asm::word_u64(u() << 8)], &[]) });
     v.push(Prog { name: "mstore-expand".into(), to: tool.into(), data: asm::tool_call(asm::OP_MSTORE, &[asm::word_u64(rng.range(1000, 400_000))], &[]) });
@@ -242,7 +245,9 @@ fn one_case(ctx: &WorkerCtx, rep: &mut WorkerReport, case_seed: u64) {
         // ---- allowance sweep ----
         let need_len = need.map(|g| (g + GAS_PER_BYTE - 1) / GAS_PER_BYTE).unwrap_or(3);
         let mut lens = vec![0u64, 1, need_len.saturating_sub(1), need_len, need_len + 1, need_len * 2 + 1, 1_000_000, u64::MAX / GAS_PER_BYTE, u64::MAX / GAS_PER_BYTE + 1, u64::MAX];
-        if !ctx.thorough() {
+        if p.name.starts_with("empty-call") {
+            lens = vec![0, 1, 2, 3, 1, 0];
+        } else if !ctx.thorough() {
             rng.shuffle(&mut lens);
             lens.truncate(4);
             lens.push(u64::MAX / GAS_PER_BYTE + 1 + rng.below(1000));
